@@ -798,6 +798,12 @@ def expand(src, variant):
     return src
 
 
+# statement forms with inlined operator operands (lib/opforms.py): atomic statements whose index and value operands are
+# operator expressions used once
+import opforms as _opforms
+for _n, _s in _opforms.programs(workgroup_array=False):
+    prog(_n, _s, mode="pool", rt=4)
+
 POLICY = {}
 
 
